@@ -93,14 +93,19 @@ impl<'a> From<&'a Error> for Report<'a> {
 fn parse_condition<S: Signals>(field: Field, system: &S) -> Result<(Condition, Field), Error> {
     // TODO Case-insensitive parse
     // TODO Allow SIG prefix
-    match field.value.parse::<RawNumber>() {
-        Ok(0) => Ok((Condition::Exit, field)),
-        Ok(number) => match system.to_signal_number(number) {
+    // A condition number is an unsigned decimal integer, but `str::parse`
+    // would accept a leading sign.
+    let number = is_non_negative_integer(&field.value)
+        .then(|| field.value.parse::<RawNumber>().ok())
+        .flatten();
+    match number {
+        Some(0) => Ok((Condition::Exit, field)),
+        Some(number) => match system.to_signal_number(number) {
             Some(number) => Ok((Condition::Signal(number), field)),
             None => Err(Error::UnknownCondition(field)),
         },
-        Err(_) if field.value == "EXIT" => Ok((Condition::Exit, field)),
-        Err(_) => match system.str2sig(&field.value) {
+        None if field.value == "EXIT" => Ok((Condition::Exit, field)),
+        None => match system.str2sig(&field.value) {
             Some(number) => Ok((Condition::Signal(number), field)),
             None => Err(Error::UnknownCondition(field)),
         },
